@@ -439,6 +439,45 @@ theorem gen_glue_accessors (n : Nat) (o : Options) (e mw aw nr : Nat) (md ad : L
       (fun _ _ => true) ad md e n :=
   C01G.gen_glue n o e mw aw nr md ad g h
 
+/-- ★ `TraceInfo::new_multi_segment` (regenerated): assertions = `traceInfoAccepted` + the metadata bound; the
+    arguments are stored unchanged -/
+theorem gen_trace_info_new (mw aw nr n : Nat) (mt : List Nat) :
+    Gen.TraceInfo.new_multi_segment_ok mw aw nr n mt =
+      (traceInfoAccepted mw aw nr n && decide (mt.length ≤ 65535)) ∧
+    Gen.TraceInfo.new_multi_segment mw aw nr n mt = (mw, aw, nr, n, mt) :=
+  C01G.gen_trace_info_new mw aw nr n mt
+
+/-- ★ `AirContext::new_multi_segment` (regenerated): stores `ceBlowup` of the main AND the auxiliary degrees, and
+    asserts exactly the listed conditions -/
+theorem gen_air_context_new (ok : Degree → Bool) (auxw : Nat) (multi : Bool) (n : Nat) (md ad : List Degree)
+    (nma naa : Nat) (ls : Bool) (li b : Nat) :
+    Gen.AirContext.new_multi_segment Degree.minBlowup ok auxw multi n md ad nma naa ls li b =
+      (ceBlowup (md ++ ad), n, n * b) ∧
+    (Gen.AirContext.new_multi_segment_ok Degree.minBlowup ok auxw multi n md ad nma naa ls li b = true ↔
+      (md ≠ [] ∧ 0 < nma ∧ (multi = true → ad ≠ [] ∧ 0 < naa) ∧ (multi = false → ad = [] ∧ naa = 0) ∧
+        (ls = true → 1 ≤ auxw ∧ li = auxw - 1) ∧ (∀ d ∈ md ++ ad, ok d = true) ∧
+        ceBlowup (md ++ ad) ≤ b ∧ n * b < 18446744073709551616)) :=
+  ⟨C01G.gen_air_context_new_value ok auxw multi n md ad nma naa ls li b,
+    C01G.gen_air_context_new_ok_iff ok auxw multi n md ad nma naa ls li b⟩
+
+/-- ★ everything `glue` accepts passes the regenerated constructor, which stores `g.ceBlowup` -/
+theorem gen_air_context_new_of_glue (n : Nat) (o : Options) (e mw aw nr : Nat) (md ad : List Degree) (g : Glue)
+    (h : glue n o e mw aw nr md ad = .ok g) (hlde : n * o.blowup < 18446744073709551616) :
+    Gen.AirContext.new_multi_segment_ok Degree.minBlowup (fun _ => true) aw (Gen.TraceInfo.is_multi_segment aw) n
+      md ad 1 (if 0 < aw then 1 else 0) false 0 o.blowup = true ∧
+    (Gen.AirContext.new_multi_segment Degree.minBlowup (fun _ => true) aw (Gen.TraceInfo.is_multi_segment aw) n
+      md ad 1 (if 0 < aw then 1 else 0) false 0 o.blowup).1 = g.ceBlowup :=
+  C01G.gen_air_context_new_of_glue n o e mw aw nr md ad g h hlde
+
+/-- ★ `set_num_transition_exemptions` (regenerated): its assertions are `exemptionsAccepted` wherever its own
+    arithmetic cannot overflow -/
+theorem gen_set_exemptions_ok (ok : Degree → Nat → Bool) (md ad : List Degree) (n ce old e : Nat)
+    (hok : ∀ d ∈ md ++ ad, ok d n = true) (hce : 1 ≤ n * ce)
+    (h1 : n * ce - 1 + n < 18446744073709551616) (h2 : n / 2 + 1 < 18446744073709551616) :
+    Gen.AirContext.set_num_transition_exemptions_ok (fun d m => d.evalDegree m) ok ad (n * ce) md old n e =
+      exemptionsAccepted (md ++ ad) n ce e :=
+  C01G.gen_set_exemptions_ok ok md ad n ce old e hok hce h1 h2
+
 example : Gen.AirContext.num_constraint_composition_columns
     (fun (d : Degree) m => Gen.Degree.get_evaluation_degree d.base d.cycles m)
     (fun d m => Gen.Degree.get_evaluation_degree_ok d.base d.cycles m) [] [⟨2, []⟩, ⟨3, [4]⟩] 1 8 = 3 := by
